@@ -111,6 +111,13 @@ struct Cx<'tcx> {
 }
 
 fn path_of(tcx: TyCtxt<'_>, did: DefId) -> String {
+    // Items of the workspace library seen from the bin crate must print with their real
+    // definition path, not the shortest visible re-export.
+    if !did.is_local() && tcx.crate_name(did.krate).as_str() == "succinctly" {
+        return ty::print::with_no_trimmed_paths!(ty::print::with_no_visible_paths!({
+            tcx.def_path_str(did)
+        }));
+    }
     ty::print::with_no_trimmed_paths!({
         tcx.def_path_str(did)
     })
@@ -185,6 +192,42 @@ impl<'tcx> Cx<'tcx> {
         Some(bytes.to_vec())
     }
 
+    /// Read a struct-typed constant (all fields primitive scalars) out of an allocation using
+    /// the type's layout; returns `"adt":{...}` JSON or None.
+    fn struct_const(&self, alloc: &mir::interpret::Allocation, base: usize, t: Ty<'tcx>) -> Option<String> {
+        let tcx = self.tcx;
+        let adt = match t.kind() {
+            ty::Adt(adt, _) if adt.is_struct() => adt,
+            _ => return None,
+        };
+        let gargs = match t.kind() {
+            ty::Adt(_, g) => g,
+            _ => return None,
+        };
+        let env = TypingEnv::fully_monomorphized();
+        let layout = tcx.layout_of(env.as_query_input(t)).ok()?;
+        let v = adt.non_enum_variant();
+        let mut fields: Vec<String> = Vec::new();
+        for (i, f) in v.fields.iter().enumerate() {
+            let fty = f.ty(tcx, gargs);
+            let sz = prim_size(fty)?;
+            let off = layout.fields.offset(i).bytes() as usize;
+            let b = self.read_alloc_bytes(alloc, base + off, sz)?;
+            let mut val: u128 = 0;
+            for (j, x) in b.iter().enumerate() {
+                val |= (*x as u128) << (8 * j);
+            }
+            let mut sv = String::new();
+            if fty.is_signed() {
+                let shift = 128 - 8 * sz as u32;
+                let s = ((val << shift) as i128) >> shift;
+                sv = format!(",\"sv\":{}", s);
+            }
+            fields.push(format!("{{\"name\":{},\"ty\":{},\"v\":{}{}}}", jstr(&f.name.to_string()), jstr(&ty_str(fty)), val, sv));
+        }
+        Some(format!("\"adt\":{{\"path\":{},\"fields\":{}}}", jstr(&path_of(tcx, adt.did())), jlist(&fields)))
+    }
+
     /// Describe an evaluated constant value of type `t`.
     fn const_value(&self, cv: ConstValue, t: Ty<'tcx>) -> String {
         let tcx = self.tcx;
@@ -211,6 +254,11 @@ impl<'tcx> Cx<'tcx> {
                 match tcx.try_get_global_alloc(alloc_id) {
                     Some(mir::interpret::GlobalAlloc::Memory(a)) => {
                         let inner = a.inner();
+                        if let Some(pt) = t.builtin_deref(true) {
+                            if let Some(sc) = self.struct_const(inner, off.bytes() as usize, pt) {
+                                return sc;
+                            }
+                        }
                         let len = inner.len().saturating_sub(off.bytes() as usize);
                         if len <= 65536 {
                             if let Some(b) = self.read_alloc_bytes(inner, off.bytes() as usize, len) {
@@ -267,6 +315,9 @@ impl<'tcx> Cx<'tcx> {
                 match tcx.try_get_global_alloc(alloc_id) {
                     Some(mir::interpret::GlobalAlloc::Memory(a)) => {
                         let inner = a.inner();
+                        if let Some(sc) = self.struct_const(inner, offset.bytes() as usize, t) {
+                            return sc;
+                        }
                         if let Some((n, esz)) = int_array_shape(tcx, t) {
                             let len = n * esz;
                             if let Some(b) = self.read_alloc_bytes(inner, offset.bytes() as usize, len) {
